@@ -129,6 +129,8 @@ def gen_case(rng, pool, malformed=False):
 # oracle (implementation observations only)
 
 def oracle(pool, smax, case, recs):
+    """smax: the compile-time cap the oracle holds the implementation to = what the build's feature names CONFIGURE when they
+    configure anything (dispatch_c0102.configured_cap), else the level the build reports."""
     """Returns (violations [(what, op_index)], judged, stats)."""
     cols, ops = case["cols"], case["ops"]
     vio = []
@@ -270,8 +272,15 @@ def run(ctx):
     # ---- leg A
     rep.proof = coq_prove(ctx, "C01", ["theories/Properties/C01.vo"])
     D.check_source_summary(ctx, rep, d, g)
-    # ---- implementation: default build and the capped build (thorough adds a release build)
-    binpath, info = D.build(ctx, rep)
+    # ---- implementation: default build, the capped build, two builds without debug assertions (thorough adds a plain release build)
+    BUILD_OF_TAG = {"max_level_info": {"capped": True}, "nodebugassert__max_level_info__release_max_level_trace": {"variant": "rel_trace"},
+                    "nodebugassert__max_level_info": {"variant": "rel_info"}, "release": {"release": True}}
+    replay_tag = "debug"
+    if ctx.replay:
+        import json
+        j = json.load(open(ctx.replay))
+        replay_tag = (j.get("case", j) or {}).get("build", "debug")
+    binpath, info = D.build(ctx, rep, **BUILD_OF_TAG.get(replay_tag, {}))
     if binpath is None:
         return rep
     pool = info["pool"]
@@ -287,9 +296,12 @@ def run(ctx):
         for i in range(n):
             malformed = (i % 7 == 6)
             cases[("m%d" if malformed else "g%d") % i] = gen_case(ctx.rng, pool, malformed)
-    good = explore(ctx, rep, fx, "debug", binpath, info, cases, g)
+    good = explore(ctx, rep, fx, replay_tag if ctx.replay else "debug", binpath, info, cases, g)
     if not ctx.replay:
-        builds = [("max_level_info", {"capped": True}, 2000 if not ctx.thorough() else 8000)]
+        builds = [("max_level_info", {"capped": True}, 2000 if not ctx.thorough() else 8000),
+                  # builds WITHOUT debug assertions (cargo --release): the release_max_level_* family applies
+                  ("nodebugassert__max_level_info__release_max_level_trace", {"variant": "rel_trace"}, 700 if not ctx.thorough() else 4000),
+                  ("nodebugassert__max_level_info", {"variant": "rel_info"}, 300 if not ctx.thorough() else 2000)]
         if ctx.thorough():
             builds.append(("release", {"release": True}, 4000))
         for tag, kw, n in builds:
@@ -311,6 +323,12 @@ def explore(ctx, rep, fx, tag, binpath, info, cases, g):
     rep.tie("static_max:%s" % tag, smax == want, "the build reports STATIC_MAX_LEVEL = %d, level_filters.rs's table (as read) says %d for features %s"
             % (smax, want, info["features"]), None if smax == want else {"reported": smax, "table": g["static"]})
     rep.count("build:%s static_max=%d" % (tag, smax), len(cases))
+    # the cap the ORACLE holds the implementation to: what the feature names configure for this profile, when they configure anything
+    conf_cap = D.configured_cap(info["features"], info["release"])
+    cap = smax if conf_cap is None else conf_cap
+    rep.tie("static_cap:%s" % tag, cap == smax, "STATIC_MAX_LEVEL = %d; the selected features %s configure %s for a build %s debug assertions"
+            % (smax, info["features"], "nothing" if conf_cap is None else conf_cap, "without" if info["release"] else "with"),
+            None if cap == smax else {"reported": smax, "configured": conf_cap, "features": info["features"], "release": info["release"]})
     ctx.log("running %d histories on the implementation" % len(cases))
     impl = D.run_impl(ctx, binpath, cases)
     bad_runs = [cid for cid in cases if cid not in impl or impl[cid]["rc"] != 0 or len(impl[cid]["out"]) != len(cases[cid]["ops"])]
@@ -324,7 +342,7 @@ def explore(ctx, rep, fx, tag, binpath, info, cases, g):
         if cid in bad_runs:
             continue
         recs = impl[cid]["out"]
-        vio, judged, all_wf = oracle(pool, smax, case, recs)
+        vio, judged, all_wf = oracle(pool, cap, case, recs)
         judged_total += judged
         rep.evaluations += 1
         rep.count("wf" if all_wf else "malformed-filters(oracle restricted to the 'never deliver a rejected one' clause)")
@@ -345,6 +363,8 @@ def explore(ctx, rep, fx, tag, binpath, info, cases, g):
                 rep.count("emit:%s:%s" % (pool[o[2]]["kind"], "delivered" if r["del"] else "not-delivered"))
                 if pool[o[2]]["lvl"] > smax:
                     rep.count("emit:above the compile-time cap")
+                elif info["release"] and pool[o[2]]["lvl"] > 3:
+                    rep.count("emit:DEBUG/TRACE callsite in a build without debug assertions (cap %d)" % smax)
             elif r["k"] == "probe":
                 rep.count("probe:%s" % ("true" if r.get("r") else "false"))
             elif r["k"] == "open" and o[2] == 0 and not r.get("bad"):
@@ -357,10 +377,10 @@ def explore(ctx, rep, fx, tag, binpath, info, cases, g):
 
             def violates(c2):
                 rc, recs2 = D.run_impl_one(binpath, c2)
-                return rc == 0 and len(recs2) == len(c2["ops"]) and bool(oracle(pool, smax, c2, recs2)[0])
+                return rc == 0 and len(recs2) == len(c2["ops"]) and bool(oracle(pool, cap, c2, recs2)[0])
             small = D.shrink({"cols": case["cols"], "ops": case["ops"][:at + 2]}, violates)
             rc, recs2 = D.run_impl_one(binpath, small)
-            v2 = oracle(pool, smax, small, recs2)[0]
+            v2 = oracle(pool, cap, small, recs2)[0]
             rep.violation(v2[0][0] if v2 else what, {"cols": small["cols"], "ops": small["ops"], "text": D.case_text(small),
                                                       "observed": recs2, "found_in": cid, "build": tag})
     rep.count("emissions judged against the current collector's own answers", judged_total)
